@@ -139,11 +139,18 @@ def sh(cmd, cwd=None, env=None, timeout=None, input=None):
 # known findings, verdicts, evidence
 # --------------------------------------------------------------------------
 def load_known():
-    p = os.path.join(VERIF, "known_findings.json")
-    if not os.path.exists(p):
-        return []
-    with open(p) as f:
-        return json.load(f).get("findings", [])
+    """known_findings.json plus known_findings.d/*.json (same format; one file per engine
+    so that they can be edited independently). Never written at run time."""
+    out = []
+    paths = [os.path.join(VERIF, "known_findings.json")]
+    d = os.path.join(VERIF, "known_findings.d")
+    if os.path.isdir(d):
+        paths += sorted(os.path.join(d, f) for f in os.listdir(d) if f.endswith(".json"))
+    for p in paths:
+        if os.path.exists(p):
+            with open(p) as f:
+                out += json.load(f).get("findings", [])
+    return out
 
 
 class Ctx:
